@@ -147,9 +147,10 @@ def _map(b, i, n):
     for _ in range(n):
         k, i = unpack_one(b, i)
         v, i = unpack_one(b, i)
-        if isinstance(k, (list, dict)):
+        try:
+            out[k] = v
+        except TypeError:  # list, dict or extension object as key: garbage bytes read as msgpack, never this format
             raise FormatError("unhashable map key")
-        out[k] = v
     return out, i
 
 
